@@ -6,6 +6,13 @@ Definition tie : Prop :=
   RecordD.hdr_len = GenConsts.D.recordHeaderLen /\
   RecordD.max_plaintext = GenConsts.D.maxPlaintext /\
   GenConsts.D.dtlcpHeaderLen = 12 /\
-  GenConsts.D.aeadNonceLength - GenConsts.D.noncePrefixLength = 8.
+  GenConsts.D.aeadNonceLength - GenConsts.D.noncePrefixLength = 8 /\
+  (* the path MTU the record and flight writers fall back to when none is configured *)
+  GenConsts.D.maxPayloadSizeForWrite_pmtu <> nil /\ GenConsts.D.writeFlight_pmtu <> nil /\
+  Forall (fun x => x = RecordD.eff_pmtu 0) GenConsts.D.maxPayloadSizeForWrite_pmtu /\
+  Forall (fun x => x = RecordD.eff_pmtu 0) GenConsts.D.writeFlight_pmtu.
 Lemma tie_holds : tie.
-Proof. unfold tie. vm_compute. repeat split. Qed.
+Proof.
+  unfold tie. repeat split; try (vm_compute; reflexivity); try (vm_compute; discriminate);
+  repeat (constructor; try (vm_compute; reflexivity)).
+Qed.
